@@ -117,7 +117,12 @@ func run() {
 			fmt.Fprintln(out, "unknown-op")
 			continue
 		}
-		fmt.Fprintln(out, safe(f, fields[1:]))
+		// one line per op, whatever the op put into its message
+		res := safe(f, fields[1:])
+		if strings.ContainsAny(res, "\n\r") {
+			res = strings.NewReplacer("\n", "\\n", "\r", "\\r").Replace(res)
+		}
+		fmt.Fprintln(out, res)
 		if lineNo%256 == 0 {
 			out.Flush()
 		}
